@@ -57,6 +57,9 @@ const (
 	// modeLateDeal (pedersen, short real phase timer): eager random order, except that one dealer's
 	// deal bundle reaches one node just after that node's own deal deadline, see latePlan.
 	modeLateDeal = numModes + 2
+	// modeLateAnnounce (pedersen, short real phase timer): eager random order, except that one
+	// val_pubkey_share announcement is delivered after its receiver's collect timeout, see annPlan.
+	modeLateAnnounce = numModes + 3
 )
 
 // Re-delivery profiles (overlay on every mode): when clones of already delivered one-way
@@ -95,7 +98,7 @@ type redoItem struct {
 const maxHold = 800 * time.Millisecond
 
 var modeNames = [...]string{"eager-random", "eager-lifo", "batch-shuffle", "batch-reverse", "laggard-sender",
-	"laggard-receiver", "class-priority", "receiver-priority", "sender-priority", "targeted-redelivery", "targeted-concurrent", "fault-hold", "slow-link", "late-deal"}
+	"laggard-receiver", "class-priority", "receiver-priority", "sender-priority", "targeted-redelivery", "targeted-concurrent", "fault-hold", "slow-link", "late-deal", "late-announcement"}
 
 type delivery struct {
 	Seq   int64  `json:"seq"`
@@ -135,6 +138,7 @@ type sched struct {
 	msgDur     time.Duration   // running estimate of one broadcast handler execution (scheduler goroutine only)
 	slow       *slowPlan       // slow-link mode
 	late       *latePlan       // late-deal mode
+	ann        *annPlan        // late-announcement mode
 	phaseP     time.Duration   // real phase duration of the ceremony (slow-link / late-deal bookkeeping when > 0)
 	// transport-fault mode
 	flt      *faultPlan
@@ -179,6 +183,8 @@ type sched struct {
 	slowDealDone   time.Time
 	slowShareLate  bool
 	lateOthersDone time.Time
+	shareSent      map[[2]int]time.Time // {node, validator} -> its first val_pubkey_share of that validator on the wire
+	annLateBy      time.Duration        // how long after B's collect timeout the announcement was handed to B
 	slowDelayed    int
 
 	// logical clock over sends and completed deliveries (pedersen pubkey-channel analysis)
@@ -200,7 +206,7 @@ func newSched(net *fakenet.Net, ids []peer.ID, rng *rand.Rand, mode int, patienc
 		classes: map[string]int{}, dupProfile: dupProfile, dupBudget: dupBudget, dupAll: dupAll, dupUsed: map[int]int{},
 		classCache: map[*fakenet.Envelope]string{}, redeliv: map[string]int{}, tgtA: -1, msgDone: map[[3]int]bool{}, p2pDone: map[[2]int]bool{}, nNodes: len(ids),
 		fltMsgSends: map[int]int{}, returned: make([]atomic.Bool, len(ids)),
-		slowCount: map[[3]int]int{}, slowOrd: map[*fakenet.Envelope]int{}, slowStart: map[[2]int]time.Time{}, slowEv: map[[3]int]*slowEvt{}, slowPubkeySent: map[int]time.Time{},
+		slowCount: map[[3]int]int{}, slowOrd: map[*fakenet.Envelope]int{}, slowStart: map[[2]int]time.Time{}, shareSent: map[[2]int]time.Time{}, slowEv: map[[3]int]*slowEvt{}, slowPubkeySent: map[int]time.Time{},
 		r1LastSend: map[int]int64{}, r1Sends: map[int]int{}, r2Sends: map[int]int{}, r1Delivered: map[int][]int64{}, r1DupsTo: map[int]int{},
 	}
 	// targeted mode: receiver B and laggard sender C (distinct); A is whoever is fast
@@ -387,6 +393,10 @@ func (s *sched) heldBack(e *fakenet.Envelope) bool {
 		at, ok := s.lateRelease(e)
 
 		return ok && time.Now().Before(at)
+	case modeLateAnnounce:
+		at, ok := s.annRelease(e)
+
+		return ok && time.Now().Before(at)
 	case modeFaultHold:
 		f := s.flt
 		if s.tgtPhase != 0 || f.Round == 0 || s.idx[e.From] != f.C || s.idx[e.To] != f.B {
@@ -513,6 +523,11 @@ func (s *sched) run() {
 					continue
 				}
 			}
+			if s.mode == modeLateAnnounce {
+				if _, ok := s.annRelease(e); ok {
+					continue
+				}
+			}
 			if s.mode == modeFaultHold && s.heldBack(e) {
 				continue // no real-time timeout is tripped by holding a one-way message; own cap inside heldBack
 			}
@@ -552,7 +567,7 @@ func (s *sched) run() {
 				elig = append(elig, e)
 			}
 		}
-		if len(elig) == 0 && (s.mode == modeFaultHold || s.mode == modeSlowLink || s.mode == modeLateDeal) {
+		if len(elig) == 0 && (s.mode == modeFaultHold || s.mode == modeSlowLink || s.mode == modeLateDeal || s.mode == modeLateAnnounce) {
 			s.idle() // the hold is ended by faultRelease or its cap (heldBack)
 
 			continue
@@ -586,7 +601,7 @@ func (s *sched) run() {
 		}
 
 		switch s.mode {
-		case modeEagerRandom, modeLaggardSender, modeLaggardRecv, modeConcurrentTargeted, modeFaultHold, modeSlowLink, modeLateDeal:
+		case modeEagerRandom, modeLaggardSender, modeLaggardRecv, modeConcurrentTargeted, modeFaultHold, modeSlowLink, modeLateDeal, modeLateAnnounce:
 			s.deliver(elig[s.rng.Intn(len(elig))])
 		case modeRedeliverTargeted:
 			e := elig[s.rng.Intn(len(elig))]
@@ -689,6 +704,13 @@ func (s *sched) deliver(e *fakenet.Envelope) {
 			if b, ok := s.born.Load(e); ok {
 				slowSent, _ = b.(time.Time)
 			}
+		}
+	}
+	if s.ann != nil {
+		if at, ok := s.annRelease(e); ok {
+			s.mu.Lock()
+			s.annLateBy = time.Since(at) + 500*time.Millisecond
+			s.mu.Unlock()
 		}
 	}
 	lateOther := false
